@@ -104,7 +104,7 @@ FileCases == JsonDeserialize(IOEnv.CASES_FILE)            \* sequence of records
 Cases == SetToSeq(GridSet) \o [i \in 1..Len(FileCases) |-> FileCases[i].m]
 NGrid == Cardinality(GridSet)
 
-Table == [i \in 1..Len(Cases) |-> [m |-> Cases[i], c16 |-> Crc16(Cases[i])[1], c64 |-> Crc64(Cases[i])]]
+Table == LET cs == Cases IN [i \in 1..Len(cs) |-> LET m == cs[i] IN [m |-> m, c16 |-> Crc16(m)[1], c64 |-> Crc64(m)]]
 
 \* every case is an initial state (the state IS the byte string, nothing moves): TLC evaluates the invariants on each
 VARIABLE c
